@@ -172,9 +172,10 @@ func runPath(it *interpreter, fn *ssa.Function) (end PathEnd, msg string) {
 		case blockedPanic:
 			end, msg = EndBlocked, "blocked forever: "+r.what
 		case engineError:
-			end, msg = EndInconclusive, r.Error()
+			end, msg = EndInconclusive, r.Error()+" [in "+strings.Join(it.panicStack, " <- ")+"]"
 		default:
 			txt := panicText(r)
+			x.notes = append(x.notes, "target-stack: "+strings.Join(it.panicStack, " <- "))
 			if _, isRT := r.(runtime.Error); isRT {
 				// may be an engine bug; keep the Go stack head for triage
 				buf := make([]byte, 2048)
